@@ -858,8 +858,30 @@ def _c10(pid, tier, log):
         default.append(Probe("c10-clone-" + st, fill(template("c10_clone.rs"), NAME="c10-clone-" + st, T=twin_t), "pos",
                              {"E0599", "E0277", "E0308"}, "%s.clone() is accepted (twin of the verifier probe)" % twin_t,
                              meta={"family": "clone-twin"}))
+    # the same negative facts must hold with EVERY optional feature switched on (a cfg-gated derive such as
+    # `cfg_attr(feature = "pkce-plain", derive(Clone))` is invisible to the default-feature crate)
+    allfeat = []
+    if NOT_CLONE in names and twin_t:
+        s, st = snake(NOT_CLONE), snake(twin_t)
+        allfeat.append(Probe("c10-clone-" + s + "-allfeat",
+                             fill(template("c10_clone.rs"), NAME="c10-clone-" + s + "-allfeat", T=NOT_CLONE), "neg",
+                             {"E0599", "E0277", "E0308"}, "%s.clone() must be rejected with all optional features enabled" % NOT_CLONE,
+                             twins=["c10-clone-" + st + "-allfeat"], meta={"family": "clone-allfeat"}))
+        allfeat.append(Probe("c10-clone-" + st + "-allfeat",
+                             fill(template("c10_clone.rs"), NAME="c10-clone-" + st + "-allfeat", T=twin_t), "pos",
+                             {"E0599", "E0277", "E0308"}, "%s.clone() is accepted (twin)" % twin_t, meta={"family": "clone-twin-allfeat"}))
+    for t in names:
+        s = snake(t)
+        allfeat.append(Probe("c10-display-" + s + "-allfeat",
+                             fill(template("c10_display.rs"), NAME="c10-display-" + s + "-allfeat", T=t), "neg", E_FMT,
+                             "format!(\"{}\", %s) must be rejected with all optional features enabled" % t,
+                             twins=["c10-debug-" + s + "-allfeat"], meta={"family": "display-allfeat"}))
+        allfeat.append(Probe("c10-debug-" + s + "-allfeat",
+                             fill(template("c10_debug.rs"), NAME="c10-debug-" + s + "-allfeat", T=t), "pos", E_FMT,
+                             "format!(\"{:?}\", %s) is accepted" % t, meta={"family": "debug-allfeat"}))
     groups = [("c10-default", "", "", default),
-              ("c10-timing", ', features = ["%s"]' % TIMING_FEATURE, "", timing)]
+              ("c10-timing", ', features = ["%s"]' % TIMING_FEATURE, "", timing),
+              ("c10-allfeat", ', features = ["%s", "pkce-plain"]' % TIMING_FEATURE, "", allfeat)]
     probes, tooling, timings, cmds = run_groups(pid, groups, log)
     missing = [t for t in C10_LISTED if t not in found]
     extra = {
@@ -870,7 +892,8 @@ def _c10(pid, tier, log):
                               "differs from the property's list: not declared through new_secret_type! (still probed): %s; "
                               "additional (probed as well): %s" % (missing, [t for t in found if t not in C10_LISTED])),
         "feature_crates": {"c10-default": "oauth2 default features (no %s)" % TIMING_FEATURE,
-                           "c10-timing": "default features + %s" % TIMING_FEATURE},
+                           "c10-timing": "default features + %s" % TIMING_FEATURE,
+                           "c10-allfeat": "default features + %s + pkce-plain" % TIMING_FEATURE},
     }
     return assemble(pid, probes, tooling, timings, cmds, extra)
 
